@@ -84,15 +84,19 @@ Record session := { s_append : bool; s_calls : list call }.
 Definition rows_of_call (c : call) : list row := concat (c_chunks c).
 Definition rows_of_session (s : session) : list row := concat (map rows_of_call (s_calls s)).
 Definition rows_of_hist (h : list session) : list row := concat (map rows_of_session h).
-(* the header appears exactly once, first, when the history starts by creating the file and writes
-   to it at all; appending never adds one *)
+(* the header appears exactly once, first, when the history starts by creating the file and passes at
+   least one table (possibly empty) to it; appending never adds one *)
 Definition spec_header (header : list Z) (h : list session) : list Z :=
   match h with
-  | s :: _ => if s_append s then [] else match s_calls s with [] => [] | _ => header end
+  | s :: _ => if s_append s then []
+              else if existsb (fun c => match c_chunks c with [] => false | _ => true end) (s_calls s) then header
+              else []
   | [] => []
   end.
 Definition spec_file (f : fmt) (header : list Z) (h : list session) : list Z :=
   spec_header header h ++ serialise f (rows_of_hist h).
+
+Definition nonempty {A} (l : list A) : bool := match l with [] => false | _ => true end.
 
 (* ---- reference reader for canonical files (what "reading the file back" means) ---- *)
 Fixpoint parse_nat_acc (acc : Z) (s : list Z) : option Z :=
@@ -103,8 +107,9 @@ Fixpoint parse_nat_acc (acc : Z) (s : list Z) : option Z :=
 Definition parse_int (s : list Z) : option Z :=
   match s with
   | [] => None
-  | 45 :: r => match r with [] => None | _ => option_map Z.opp (parse_nat_acc 0 r) end
-  | _ => parse_nat_acc 0 s
+  | c :: r => if c =? 45
+              then match r with [] => None | _ => option_map Z.opp (parse_nat_acc 0 r) end
+              else parse_nat_acc 0 s
   end.
 Fixpoint all_some {A} (l : list (option A)) : option (list A) :=
   match l with
@@ -112,7 +117,8 @@ Fixpoint all_some {A} (l : list (option A)) : option (list A) :=
   | Some x :: r => option_map (cons x) (all_some r)
   | None :: _ => None
   end.
-(* column kinds: 0 text, 1 int, 2 int list, 3 float, 4 qualities, 5 text = rest of the line (SAM tags) *)
+(* column kinds: 0 text, 1 int, 2 int list, 3 float, 4 qualities, 5 text = rest of the line (SAM tags),
+   6 identifier text (SequenceID) *)
 Definition parse_fld (k : Z) (t : list Z) : option fld :=
   if k =? 1 then option_map FI (parse_int t)
   else if k =? 2 then match t with [] => Some (FL []) | _ => option_map FL (all_some (map parse_int (split_on 44 t))) end
@@ -122,53 +128,82 @@ Definition parse_fld (k : Z) (t : list Z) : option fld :=
 Fixpoint parse_fields (schema : list Z) (fs : list (list Z)) : option row :=
   match schema, fs with
   | [], [] => Some []
-  | [5], _ :: _ => Some [FS (intercalate [9] fs)]
-  | k :: ks, f :: fs' => match parse_fld k f, parse_fields ks fs' with
-                         | Some x, Some r => Some (x :: r)
-                         | _, _ => None
-                         end
+  | k :: ks, f :: fs' =>
+      if (k =? 5) && negb (nonempty ks) then Some [FS (intercalate [9] fs)]
+      else match parse_fld k f, parse_fields ks fs' with
+           | Some x, Some r => Some (x :: r)
+           | _, _ => None
+           end
   | _, _ => None
   end.
 Definition parse_line (schema : list Z) (l : list Z) : option row := parse_fields schema (split_on 9 l).
-Definition is_comment (l : list Z) : bool := match l with 35 :: _ => true | _ => false end.
+Definition is_comment (l : list Z) : bool := match l with c :: _ => c =? 35 | [] => false end.
 (* FASTA: a header line opens a record, the following lines are concatenated.  A record without any
    sequence line is outside the reader's domain (None). *)
+(* SWITCH: false = the reader as it is (IndexError on a record without sequence lines); true = repaired
+   MultiLineFastaBuffer.get_data (notes/C03.fix-3.diff) *)
+Definition reader_reads_empty_fasta_record := false.
 Definition close_rec (cur : option (list Z * list Z * bool)) : option (list row) :=
   match cur with
   | None => Some []
   | Some (n, s, true) => Some [[FS n; FS s]]
-  | Some (_, _, false) => None
+  | Some (n, s, false) => if reader_reads_empty_fasta_record then Some [[FS n; FS s]] else None
   end.
 Fixpoint parse_fasta (cur : option (list Z * list Z * bool)) (ls : list (list Z)) : option (list row) :=
   match ls with
   | [] => close_rec cur
-  | (62 :: n) :: rest =>
-      match close_rec cur, parse_fasta (Some (n, [], false)) rest with
-      | Some a, Some b => Some (a ++ b)
-      | _, _ => None
+  | l :: rest =>
+      match l with
+      | c :: n =>
+          if c =? 62 then
+            match close_rec cur, parse_fasta (Some (n, [], false)) rest with
+            | Some a, Some b => Some (a ++ b)
+            | _, _ => None
+            end
+          else match cur with
+               | Some (n0, s, _) => parse_fasta (Some (n0, s ++ l, true)) rest
+               | None => None
+               end
+      | [] => match cur with
+              | Some (n0, s, _) => parse_fasta (Some (n0, s, true)) rest
+              | None => None
+              end
       end
-  | l :: rest => match cur with
-                 | Some (n, s, _) => parse_fasta (Some (n, s ++ l, true)) rest
-                 | None => None
-                 end
   end.
 Fixpoint parse_fastq (fuel : nat) (ls : list (list Z)) : option (list row) :=
   match fuel with
   | O => match ls with [] => Some [] | _ => None end
   | S f => match ls with
            | [] => Some []
-           | (64 :: n) :: s :: [43] :: q :: rest =>
-               option_map (cons [FS n; FS s; FQ (map (fun c => c - 33) q)]) (parse_fastq f rest)
+           | (c :: n) :: s :: p :: q :: rest =>
+               if (c =? 64) && zlist_eqb p [43]
+               then option_map (cons [FS n; FS s; FQ (map (fun c => c - 33) q)]) (parse_fastq f rest)
+               else None
            | _ => None
            end
   end.
-Definition parse_file (f : fmt) (schema : list Z) (file : list Z) : option (list row) :=
+(* the reader as it is cannot return a table in which an identifier (SequenceID, kind 6) column is empty
+   in every row (string_array: reshape((-1, 0)) of zero bytes).  SWITCH: true = as it is (no fix proposed) *)
+Definition reader_needs_nonempty_id := true.
+Definition id_cols_ok (schema : list Z) (rows : list row) : bool :=
+  match rows with
+  | [] => true
+  | _ => forallb (fun i => negb (nthZ schema i =? 6)
+                           || existsb (fun r => match nth (Z.to_nat i) r (FS [0]) with FS [] => false | _ => true end) rows)
+                 (arange (len schema))
+  end.
+Definition parse_raw (f : fmt) (schema : list Z) (file : list Z) : option (list row) :=
   match f with
   | Delim => all_some (map (parse_line schema) (lines file))
   | Vcf | VcfU => option_map (map (vcf_shift (-1)))
              (all_some (map (parse_line schema) (filter (fun l => negb (is_comment l)) (lines file))))
   | Fasta _ => parse_fasta None (lines file)
   | Fastq => let ls := lines file in parse_fastq (length ls) ls
+  end.
+Definition parse_file (f : fmt) (schema : list Z) (file : list Z) : option (list row) :=
+  match parse_raw f schema file with
+  | Some rs => if negb reader_needs_nonempty_id || id_cols_ok schema rs then Some rs else None
+  | None => None
   end.
 
 (* =====================================================================================
@@ -186,17 +221,17 @@ Definition log10_slack (d : Z) : Z :=
   if d =? 15 then 2 else if d =? 16 then 21 else if d =? 17 then 407 else if d =? 18 then 4031 else 0.
 Definition width_pinned (m : Z) : Z :=
   let d := width_exact m in if 10 ^ d - m <=? log10_slack d then d + 1 else d.
-(* the code as it is in /repo: width_pinned.  A repaired ints_to_strings corresponds to width_exact
-   (and abs64 := Z.abs). *)
-Definition int_width := width_pinned.
 Definition its_with (wd : Z -> Z) (ab : Z -> Z) (n : Z) : list Z :=
   let a := ab n in
   let L := wd (Z.max a 1) in
   let total := L + (if n <? 0 then 1 else 0) in
   let ds := map (fun i => 48 + (a / 10 ^ i) mod 10) (rev (arange total)) in
   if n <? 0 then 45 :: tl ds else ds.
-Definition its : Z -> list Z := its_with int_width abs64.
+Definition its_pinned : Z -> list Z := its_with width_pinned abs64.
+(* repaired ints_to_strings (notes/C18.fix-1.diff): exact digit count, true magnitude *)
 Definition its_fixed : Z -> list Z := its_with width_exact Z.abs.
+(* SWITCH: the code as it is in /repo *)
+Definition its : Z -> list Z := its_pinned.
 
 (* ---- dump_csv.get_column: the text of one cell by column type ---- *)
 Definition col_text_with (it : Z -> list Z) (f : fld) : list Z :=
@@ -237,13 +272,16 @@ Definition template (lens : list Z) : list (list Z) := map (fun L => repeat 0 (Z
 (* columns of a rectangular table of texts *)
 Definition columns (ncol : nat) (rows : list (list (list Z))) : list (list (list Z)) :=
   map (fun i => map (fun r => nth i r []) rows) (seq 0 ncol).
-(* lengths matrix raveled row-major: column lengths + 1 + per-column offset *)
+(* lengths matrix (rows x columns) raveled row-major: cell length + 1 + per-column offset *)
 Definition line_lengths (offs : list nat) (cols : list (list (list Z))) (nrow : nat) : list Z :=
-  flat_map (fun r => map (fun '(off, col) => len (nth r col []) + 1 + Z.of_nat off) (combine offs cols)) (seq 0 nrow).
+  flat_map (fun r => map (fun i => len (nth r (nth i cols []) []) + 1 + Z.of_nat (nth i offs O))
+                         (seq 0 (length cols)))
+           (seq 0 nrow).
+(* for i, column in enumerate(columns): lines[i::n, off_i:-1] = column *)
 Definition scatter (offs : list nat) (cols : list (list (list Z))) (nrow : nat) : list (list Z) :=
   let n := length cols in
-  fold_left (fun lines '(i, (off, col)) => put_stride i n off lines col)
-            (combine (seq 0 n) (combine offs cols))
+  fold_left (fun lines i => put_stride i n (nth i offs O) lines (nth i cols []))
+            (seq 0 n)
             (template (line_lengths offs cols nrow)).
 
 (* dump_csv.join_columns + ravel *)
@@ -300,7 +338,7 @@ Fixpoint fasta_fill (ll : list Z) (is_hdr : list bool) (names : list (list Z)) (
         else None
   | _ :: _, [] => None
   end.
-Definition fasta_from_data (w : Z) (es : list (list Z * list Z)) : option (list Z) :=
+Definition fasta_from_data_pinned (w : Z) (es : list (list Z * list Z)) : option (list Z) :=
   let name_lengths := map (fun e => len (fst e)) es in
   let seq_lengths := map (fun e => len (snd e)) es in
   let n_lines := map (fun L => (L - 1) / w + 1) seq_lengths in
@@ -313,9 +351,29 @@ Definition fasta_from_data (w : Z) (es : list (list Z * list Z)) : option (list 
   let ll2 := set_many (map (fun s => s - 1) (tl entry_starts)) (map (fun n => n + 1) last_length) ll1 in
   let is_hdr := map (fun i => existsb (Z.eqb i) hdr_idx) (arange total) in
   fasta_fill ll2 is_hdr (map fst es) (concat (map snd es)).
+(* repaired (notes/C03.fix-3.diff): the last-line length is stored only for entries that have lines, and
+   before the header-line lengths *)
+Definition fasta_from_data_fixed (w : Z) (es : list (list Z * list Z)) : option (list Z) :=
+  let name_lengths := map (fun e => len (fst e)) es in
+  let seq_lengths := map (fun e => len (snd e)) es in
+  let n_lines := map (fun L => (L - 1) / w + 1) seq_lengths in
+  let last_length := map (fun L => (L - 1) mod w + 1) seq_lengths in
+  let total := sumZ n_lines + len n_lines in
+  let ll0 := repeat (w + 1) (Z.to_nat total) in
+  let entry_starts := 0 :: cumsum (map (fun n => n + 1) n_lines) in
+  let hdr_idx := removelast entry_starts in
+  let has_lines := map (fun n => 0 <? n) n_lines in
+  let ll1 := set_many (mask_select has_lines (map (fun s => s - 1) (tl entry_starts)))
+                      (mask_select has_lines (map (fun n => n + 1) last_length)) ll0 in
+  let ll2 := set_many hdr_idx (map (fun n => n + 2) name_lengths) ll1 in
+  let is_hdr := map (fun i => existsb (Z.eqb i) hdr_idx) (arange total) in
+  fasta_fill ll2 is_hdr (map fst es) (concat (map snd es)).
+(* SWITCH: the code as it is in /repo *)
+Definition fasta_from_data := fasta_from_data_pinned.
 
-(* dump_csv.get_column has no entry for the type Union[BNPDataClass, str]: KeyError (code 2) — the code as
-   it is.  [true] corresponds to a repaired get_column that writes a text INFO column. *)
+(* dump_csv.get_column has no entry for the type Union[BNPDataClass, str]: KeyError (code 2).
+   SWITCH: false = the code as it is; true = repaired get_column (notes/C03.fix-4.diff) that writes a text
+   INFO column. *)
 Definition union_info_writable := false.
 (* ---- one from_data call of the buffer type; (error code, bytes): 0 ok, 1 AssertionError, 2 KeyError ---- *)
 Definition from_data (f : fmt) (rows : list row) : Z * list Z :=
@@ -339,9 +397,10 @@ Definition has_header (f : fmt) : bool := match f with Delim | Vcf | VcfU => tru
 (* `self._file_obj.mode != 'ab'`: a GzipFile's mode is an int, never 'ab' — the code as it is *)
 Definition mode_is_ab_pinned (append gz : bool) : bool := append && negb gz.
 Definition mode_is_ab_fixed (append gz : bool) : bool := append.
-Definition mode_is_ab := mode_is_ab_pinned.
 
 Record wstate := { w_hw : bool; w_out : list Z; w_err : Z }.
+(* one write(table) call: header once unless appending, nothing more for an empty table, else the bytes
+   of from_data; after an exception nothing further happens *)
 Definition write_one (f : fmt) (header : list Z) (ab : bool) (st : wstate) (chunk : list row) : wstate :=
   if negb (w_err st =? 0) then st else
   let st1 := if has_header f && negb ab && negb (w_hw st)
@@ -351,15 +410,26 @@ Definition write_one (f : fmt) (header : list Z) (ab : bool) (st : wstate) (chun
   | _ => let '(e, b) := from_data f chunk in
          {| w_hw := w_hw st1; w_out := w_out st1 ++ b; w_err := e |}
   end.
-Definition write_call (f : fmt) (header : list Z) (ab : bool) (st : wstate) (c : call) : wstate :=
-  if c_stream c
-  then fold_left (fun st ch => match ch with [] => st | _ => write_one f header ab st ch end) (c_chunks c) st
-  else fold_left (write_one f header ab) (c_chunks c) st.
-Definition run_session (f : fmt) (header : list Z) (gz : bool) (st : Z * list Z) (s : session) : Z * list Z :=
+(* write(stream): `for buf in data: if len(buf) > 0: self.write(buf)` — empty chunks are skipped BEFORE the
+   header logic in the code as it is ([skip] = true) *)
+Definition chunks_seen (skip : bool) (c : call) : list (list row) :=
+  if c_stream c && skip then filter nonempty (c_chunks c) else c_chunks c.
+Definition write_call (skip : bool) (f : fmt) (header : list Z) (ab : bool) (st : wstate) (c : call) : wstate :=
+  fold_left (write_one f header ab) (chunks_seen skip c) st.
+Definition run_session (is_ab : bool -> bool -> bool) (skip : bool) (f : fmt) (header : list Z) (gz : bool)
+           (st : Z * list Z) (s : session) : Z * list Z :=
   let '(e, content) := st in
   if negb (e =? 0) then st else
   let st0 := {| w_hw := false; w_out := if s_append s then content else []; w_err := 0 |} in
-  let st1 := fold_left (write_call f header (mode_is_ab (s_append s) gz)) (s_calls s) st0 in
+  let st1 := fold_left (write_call skip f header (is_ab (s_append s) gz)) (s_calls s) st0 in
   (w_err st1, w_out st1).
-Definition run_hist (f : fmt) (header : list Z) (gz : bool) (h : list session) : Z * list Z :=
-  fold_left (run_session f header gz) h (0, []).
+Definition run_hist_with (is_ab : bool -> bool -> bool) (skip : bool) (f : fmt) (header : list Z) (gz : bool)
+           (h : list session) : Z * list Z :=
+  fold_left (run_session is_ab skip f header gz) h (0, []).
+(* the code as it is in /repo, and the repaired writer (notes/C03.fix-1.diff for the append test,
+   notes/C03.fix-2.diff for streams) *)
+Definition run_hist_pinned := run_hist_with mode_is_ab_pinned true.
+Definition run_hist_fixed := run_hist_with mode_is_ab_fixed false.
+(* SWITCH: the code as it is in /repo (fix-1 only: run_hist_with mode_is_ab_fixed true;
+   fix-2 only: run_hist_with mode_is_ab_pinned false) *)
+Definition run_hist := run_hist_pinned.
